@@ -550,8 +550,8 @@ def run_api(ctx, r, spec, label, plans=None, expect_flags=False):
                     kw = [[bypath[p][1], bypath[p][2]] for p in keys]
                     mixed_key = r.pick(keys)
                     calls.append(dict(base, mode="kwargs", kwargs=kw))
-                    # (proto-plus to_dict renders int map keys as text: a dict made that way is not a valid request dict)
-                    dict_ok = not inf["cross"] and not any(f[0] == "imap" for f in (m["fields"] or []))
+                    # (proto-plus to_dict renders int map keys as text and Value items as bare python values: such a dict is not a valid request dict)
+                    dict_ok = not inf["cross"] and not any(f[0] in ("imap", "vals", "val", "meta") for f in (m["fields"] or []))
                     calls.append(dict(base, mode=r.pick(["request-instance", "request-dict"]) if dict_ok else "request-instance"))
                     calls.append(dict(base, mode="mixed", kwargs=[[bypath[mixed_key][1], bypath[mixed_key][2]]]))
                     index.append((m, given, falsy, full, keys, mixed_key))
@@ -704,7 +704,7 @@ def t2_paths(ctx, r):
         pool = list(top) + [f"{t}.{s}" for t in top for s in SUB_PATHS.get(t.split(".")[0], [])] + \
             r.sample(["nosuch", "parent.x", "tags.x", "book.nosuch", "books.name", "book.inner.marks.x", "labels.key", "book.import.title", "class_", ""], 2)
         for _ in range(ctx.n(12, 40)):
-            sigs = [r.pick([",", ", ", " ,"]).join(r.sample(pool, r.randint(0, 4))) for _ in range(r.randint(1, 3))]
+            sigs = [r.pick([",", ", ", " ,"]).join(r.sample(pool, min(len(pool), r.randint(0, 4)))) for _ in range(r.randint(1, 3))]
             ops.append({"op": "c05.mapping", "schema": schema, "input": input_full, "cross_pkg": bool(m["dep"]), "sigs": sigs})
             cases.append((m, sigs))
     res = ctx.driver.ask(ops)
@@ -737,7 +737,7 @@ def run(ctx):
     for name, blob in corpus_entries():
         run_api(ctx, ctx.rng("corpus", name), blob["spec"], f"corpus:{name}", plans=blob.get("plans"))
     t2_paths(ctx, ctx.rng("t2"))
-    for a in range(ctx.n(6, 110)):
+    for a in range(ctx.n(18, 300)):
         run_api(ctx, r, gen_spec(r, ctx.n(6, 8)), f"api{a}")
 
 
